@@ -31,10 +31,23 @@ theorem Lab.cset_other (b : Lab) (q : Nat) (v : Bool) (r : Nat) (h : r ≠ q) :
 def TofLike (g : CGate) (c0 c1 t : Nat) : Prop :=
   ∀ b : Lab, g.apply b = b.set t (xor (b t) (b c0 && b c1))
 
-theorem tofLike_toffoli (c0 c1 t : Nat) : TofLike (.toffoli c0 c1 t) c0 c1 t := fun _ => rfl
+theorem and_min_max (b : Lab) (c0 c1 : Nat) : (b (min c0 c1) && b (max c0 c1)) = (b c0 && b c1) := by
+  by_cases h : c0 ≤ c1
+  · rw [Nat.min_eq_left h, Nat.max_eq_right h]
+  · have h' : c1 ≤ c0 := by omega
+    rw [Nat.min_eq_right h', Nat.max_eq_left h', Bool.and_comm]
+
+theorem tofLike_toffoli (c0 c1 t : Nat) : TofLike (tof c0 c1 t) c0 c1 t := by
+  intro b
+  show b.set t (xor (b t) (b (min c0 c1) && b (max c0 c1))) = _
+  rw [and_min_max]
 
 theorem tofLike_congruent (ut : Bool) (c0 c1 t : Nat) : TofLike (congruent ut c0 c1 t) c0 c1 t := by
-  intro b; cases ut <;> rfl
+  intro b
+  cases ut
+  · show b.set t (xor (b t) (b (min c0 c1) && b (max c0 c1))) = _
+    rw [and_min_max]
+  · exact tofLike_toffoli c0 c1 t b
 
 /-- conjunction of the bits at `c 0 … c (n-1)`. -/
 def andUpTo (c : Nat → Nat) (n : Nat) (b : Lab) : Bool := (List.range n).all (fun i => b (c i))
@@ -209,7 +222,7 @@ theorem getD_ne_of_nodup (l : List Nat) (hn : l.Nodup) (i j : Nat) (hij : i < j)
 def ladderG (ut : Bool) (cs : List Nat) (t : Nat) (fs : List Nat) (k : Nat) (j : Nat) : CGate :=
   if j = 0 then congruent ut (cs.getD 0 0) (cs.getD 1 0) (fs.getD 0 0)
   else if j ≤ k then congruent ut (cs.getD (j + 1) 0) (fs.getD (j - 1) 0) (fs.getD j 0)
-  else .toffoli (cs.getD (j + 1) 0) (fs.getD (j - 1) 0) t
+  else tof (cs.getD (j + 1) 0) (fs.getD (j - 1) 0) t
 
 theorem ladderHalf_eq (ut : Bool) (cs : List Nat) (t : Nat) (fs : List Nat) (k : Nat)
     (hm : cs.length = k + 3) :
@@ -232,7 +245,7 @@ theorem ladderHalf_eq (ut : Bool) (cs : List Nat) (t : Nat) (fs : List Nat) (k :
     rw [e1, e2]
   unfold ladderHalf
   simp only [hg1]
-  have hfirst : CGate.toffoli (cs.getD (cs.length - 1) 0) (fs.getD (cs.length - 3) 0) t
+  have hfirst : tof (cs.getD (cs.length - 1) 0) (fs.getD (cs.length - 3) 0) t
       = ladderG ut cs t fs k (k + 1) := by
     have h0 : k + 1 ≠ 0 := by omega
     have h1 : ¬ (k + 1 ≤ k) := by omega
@@ -296,7 +309,7 @@ theorem ladder_spec (ut : Bool) (cs : List Nat) (t : Nat) (fs : List Nat)
       exact tofLike_congruent ut _ _ _
     · have hj' : j = k := by omega
       subst hj'
-      have : G (j + 1) = .toffoli (cs.getD (j + 2) 0) (fs.getD j 0) t := by
+      have : G (j + 1) = tof (cs.getD (j + 2) 0) (fs.getD j 0) t := by
         simp [hGdef, ladderG]
       rw [this, a_le j (le_refl _), a_top]
       exact tofLike_toffoli _ _ _
@@ -316,7 +329,7 @@ theorem mcxSmall_spec (cs : List Nat) (t : Nat) (h : cs.length < 3) (b : Lab) :
   match cs, h with
   | [], _ => simp [mcxSmall, CGate.apply, mcxSpec]
   | [c], _ => simp [mcxSmall, CGate.apply, mcxSpec]
-  | [c0, c1], _ => simp [mcxSmall, CGate.apply, mcxSpec]
+  | [c0, c1], _ => simp [mcxSmall, tof, CGate.apply, mcxSpec, and_min_max]
   | _ :: _ :: _ :: _, h => simp at h; omega
 
 theorem all_congr_of (l : List Nat) (b b' : Lab) (h : ∀ q, q ∈ l → b q = b' q) :
@@ -381,6 +394,36 @@ theorem perm_call2 (A B fs' : List Nat) (t f0 : Nat) :
   simp only [List.count_append, List.count_cons, List.count_nil]
   omega
 
+theorem insSorted_perm (x : Nat) (l : List Nat) : (insSorted x l).Perm (x :: l) := by
+  induction l with
+  | nil => exact List.Perm.refl _
+  | cons y ys ih =>
+    unfold insSorted
+    split
+    · exact List.Perm.refl _
+    · exact ((List.Perm.cons y ih).trans (List.Perm.swap x y ys))
+
+theorem srt_perm (l : List Nat) : (srt l).Perm l := by
+  induction l with
+  | nil => exact List.Perm.refl _
+  | cons x xs ih =>
+    show (insSorted x (srt xs)).Perm (x :: xs)
+    exact (insSorted_perm x (srt xs)).trans (List.Perm.cons x ih)
+
+theorem all_perm {l l' : List Nat} (h : l.Perm l') (b : Lab) : l.all b = l'.all b := by
+  rw [Bool.eq_iff_iff]
+  simp only [List.all_eq_true]
+  exact ⟨fun H x hx => H x (h.mem_iff.2 hx), fun H x hx => H x (h.mem_iff.1 hx)⟩
+
+theorem mcxSpec_srt (l : List Nat) (t : Nat) (b : Lab) : mcxSpec (srt l) t b = mcxSpec l t b := by
+  unfold mcxSpec
+  rw [all_perm (srt_perm l)]
+
+theorem nodup_srt_append (l r : List Nat) : (srt l ++ r).Nodup ↔ (l ++ r).Nodup :=
+  ((srt_perm l).append_right r).nodup_iff
+
+theorem length_srt (l : List Nat) : (srt l).length = l.length := (srt_perm l).length_eq
+
 theorem nodup_parts (cs : List Nat) (t f0 : Nat) (fs' : List Nat) (m1 : Nat)
     (hn : (cs ++ t :: f0 :: fs').Nodup) :
     (cs.take m1 ++ f0 :: (cs.drop m1 ++ [t] ++ fs')).Nodup ∧
@@ -411,7 +454,9 @@ theorem xDecompose_spec (ut : Bool) : ∀ (fuel : Nat) (cs : List Nat) (t : Nat)
     intro cs t fs gs hn h b
     rw [xDecompose] at h
     dsimp only at h
-    split_ifs at h with hv hm hl hf
+    split_ifs at h with h12 hv hm hl hf
+    · injection h with h; subst h
+      simp [mcxSmall_spec cs t (by omega)]
     · injection h with h; subst h
       simp [mcxSmall_spec cs t hm]
     · injection h with h; subst h
@@ -422,19 +467,20 @@ theorem xDecompose_spec (ut : Bool) : ∀ (fuel : Nat) (cs : List Nat) (t : Nat)
         | cons f0 fs' => exact ⟨f0, fs', rfl⟩
       simp only [List.getD_cons_zero, List.drop_one, List.tail_cons, List.length_cons] at h
       obtain ⟨n1, n2, hf0A, hf0B, htA, htB, hft⟩ := nodup_parts cs t f0 fs' ((cs.length + 1 + (fs'.length + 1)) / 2) hn
-      cases h1 : xDecompose ut fuel (List.take ((cs.length + 1 + (fs'.length + 1)) / 2) cs) f0
+      cases h1 : xDecompose ut fuel (srt (List.take ((cs.length + 1 + (fs'.length + 1)) / 2) cs)) f0
           (List.drop ((cs.length + 1 + (fs'.length + 1)) / 2) cs ++ [t] ++ fs') with
       | ok p1 =>
         rw [h1] at h
         simp only at h
-        cases h2 : xDecompose ut fuel (List.drop ((cs.length + 1 + (fs'.length + 1)) / 2) cs ++ [f0]) t
+        cases h2 : xDecompose ut fuel (srt (List.drop ((cs.length + 1 + (fs'.length + 1)) / 2) cs ++ [f0])) t
             (List.take ((cs.length + 1 + (fs'.length + 1)) / 2) cs ++ fs') with
         | ok p2 =>
           rw [h2] at h
           simp only at h
           injection h with h; subst h
-          have s1 := ih _ _ _ _ n1 h1
-          have s2 := ih _ _ _ _ n2 h2
+          have s1 := ih _ _ _ _ ((nodup_srt_append _ _).2 n1) h1
+          have s2 := ih _ _ _ _ ((nodup_srt_append _ _).2 n2) h2
+          simp only [mcxSpec_srt] at s1 s2
           have := split_spec _ _ t f0 p1 p2 s1 s2 hf0A hf0B htA htB hft b
           rwa [List.take_append_drop] at this
         | valueError => rw [h2] at h; simp at h
@@ -466,7 +512,8 @@ theorem xDecompose_total (ut : Bool) : ∀ (fuel : Nat) (cs : List Nat) (t : Nat
     dsimp only
     rw [hv]
     simp only [Bool.false_eq_true, if_false]
-    split_ifs with hm hl hf
+    split_ifs with h12 hm hl hf
+    · exact ⟨_, rfl⟩
     · exact ⟨_, rfl⟩
     · exact ⟨_, rfl⟩
     · obtain ⟨f0, fs', rfl⟩ : ∃ f0 fs', fs = f0 :: fs' := by
@@ -475,9 +522,9 @@ theorem xDecompose_total (ut : Bool) : ∀ (fuel : Nat) (cs : List Nat) (t : Nat
         | cons f0 fs' => exact ⟨f0, fs', rfl⟩
       simp only [List.getD_cons_zero, List.drop_one, List.tail_cons, List.length_cons] at *
       obtain ⟨n1, n2, _⟩ := nodup_parts cs t f0 fs' ((cs.length + 1 + (fs'.length + 1)) / 2) hn
-      obtain ⟨p1, h1⟩ := ih (List.take ((cs.length + 1 + (fs'.length + 1)) / 2) cs) f0
+      obtain ⟨p1, h1⟩ := ih (srt (List.take ((cs.length + 1 + (fs'.length + 1)) / 2) cs)) f0
         (List.drop ((cs.length + 1 + (fs'.length + 1)) / 2) cs ++ [t] ++ fs')
-        (by rw [List.length_take]; omega) n1 (Or.inr (by simp))
+        (by rw [length_srt, List.length_take]; omega) ((nodup_srt_append _ _).2 n1) (Or.inr (by simp))
       rw [h1]
       dsimp only
       have hA : (List.take ((cs.length + 1 + (fs'.length + 1)) / 2) cs) ≠ [] := by
@@ -486,10 +533,10 @@ theorem xDecompose_total (ut : Bool) : ∀ (fuel : Nat) (cs : List Nat) (t : Nat
         rw [List.length_take] at this
         simp only [List.length_nil] at this
         omega
-      obtain ⟨p2, h2⟩ := ih (List.drop ((cs.length + 1 + (fs'.length + 1)) / 2) cs ++ [f0]) t
+      obtain ⟨p2, h2⟩ := ih (srt (List.drop ((cs.length + 1 + (fs'.length + 1)) / 2) cs ++ [f0])) t
         (List.take ((cs.length + 1 + (fs'.length + 1)) / 2) cs ++ fs')
-        (by rw [List.length_append, List.length_drop]; simp only [List.length_cons, List.length_nil]; omega)
-        n2 (Or.inr (by simp [hA]))
+        (by rw [length_srt, List.length_append, List.length_drop]; simp only [List.length_cons, List.length_nil]; omega)
+        ((nodup_srt_append _ _).2 n2) (Or.inr (by simp [hA]))
       rw [h2]
       exact ⟨_, rfl⟩
     · exfalso
